@@ -340,7 +340,21 @@ func (f *File) Lower() *descriptorpb.FileDescriptorProto {
 			seen[im] = true
 		}
 	}
+	for _, im := range f.Public {
+		if !seen[im] {
+			d.Dependency = append(d.Dependency, im)
+			seen[im] = true
+		}
+		for i, dep := range d.Dependency {
+			if dep == im {
+				d.PublicDependency = append(d.PublicDependency, int32(i))
+			}
+		}
+	}
 	for _, im := range SortedKeys(l.imports) {
+		if f.Via != "" && (im == AnnotationsPath || im == HeadersPath) {
+			im = f.Via
+		}
 		if !seen[im] {
 			d.Dependency = append(d.Dependency, im)
 			seen[im] = true
